@@ -140,4 +140,50 @@ theorem C11_trie_keys (alpha : List Nat) (ws : List Word) (w : Word) (hw : w ∈
     (ha : inAlpha alpha w.reading = true) : (fill alpha ws).2.any (Kkc.beqStr w.reading) = true :=
   trie_gen alpha ws ([], []) w hw ha
 
+/-! ### the sort in front of the fold neither loses nor invents words -/
+
+theorem mem_insertSorted (w x : Word) : ∀ l : List Word, x ∈ insertSorted w l ↔ (x = w ∨ x ∈ l)
+  | [] => by simp [insertSorted]
+  | y :: t => by
+    unfold insertSorted
+    split
+    · simp
+    · simp only [List.mem_cons, mem_insertSorted w x t]
+      constructor
+      · rintro (h | h | h)
+        · exact Or.inr (Or.inl h)
+        · exact Or.inl h
+        · exact Or.inr (Or.inr h)
+      · rintro (h | h | h)
+        · exact Or.inr (Or.inl h)
+        · exact Or.inl h
+        · exact Or.inr (Or.inr h)
+
+theorem mem_sortWords (x : Word) : ∀ l : List Word, x ∈ sortWords l ↔ x ∈ l
+  | [] => by simp [sortWords]
+  | w :: t => by simp [sortWords, mem_insertSorted, mem_sortWords x t]
+
+/-- **The built dictionary is exactly the conjugated source** (model of `read_and_make_dictionary`):
+every conjugated word of every entry read from the source is stored under its reading, nothing else
+is stored, and every reading spelled in the alphabet is a key of the trie. -/
+theorem C11_source (c : Cfg) (content : Str) (ws : List Word) (m : List (Str × List Word)) (keys : List Str)
+    (hws : allWords c (Chokan.DicText.readAll c.kanaClass c.alts c.kata content) = some ws)
+    (hb : buildMap c content = some (m, keys)) :
+    (∀ w ∈ ws, ∃ l, findMap w.reading m = some l ∧ w ∈ l) ∧
+    (∀ key l x, findMap key m = some l → x ∈ l → x ∈ ws ∧ key = x.reading) ∧
+    (∀ w ∈ ws, inAlpha c.alpha w.reading = true → keys.any (Kkc.beqStr w.reading) = true) := by
+  rw [buildMap_eq_fill, hws] at hb
+  simp only [Option.map_some, Option.some.injEq] at hb
+  have hmem : ∀ w, w ∈ sortWords ws.reverse ↔ w ∈ ws := fun w => by rw [mem_sortWords]; simp
+  refine ⟨?_, ?_, ?_⟩
+  · intro w hw
+    have := C11_complete c.alpha (sortWords ws.reverse) w ((hmem w).2 hw)
+    rw [hb] at this; exact this
+  · intro key l x hl hx
+    have := C11_sound c.alpha (sortWords ws.reverse) key l x (by rw [hb]; exact hl) hx
+    exact ⟨(hmem x).1 this.1, this.2⟩
+  · intro w hw ha
+    have := C11_trie_keys c.alpha (sortWords ws.reverse) w ((hmem w).2 hw) ha
+    rw [hb] at this; exact this
+
 end Chokan.Props.C11
